@@ -73,6 +73,16 @@ class Machine(object):
     def generate(cls, rng, knobs):
         raise NotImplementedError
 
+    @classmethod
+    def sweep_size(cls, tier):
+        """Number of cases of the machine's deterministic sweep (0 = none)."""
+        return 0
+
+    @classmethod
+    def sweep_case(cls, i, tier):
+        """(knobs, ops) of sweep case i."""
+        raise NotImplementedError
+
     def __init__(self, ctx):
         self.ctx = ctx
 
